@@ -25,7 +25,8 @@ RULE = ("case = (client stack: Client / PooledClient / HashClient with 1-3 serve
         "healthy empty server gives `miss`, on a healthy server holding the keys gives `hit`; under the failure the "
         "call must not raise and must return miss - same shape, the same default objects by identity (defaults that are callables - a class, a function, dict, list - included: they are handed back, not called) - or, when the "
         "fault turned out harmless, the genuine hit; afterwards (clock advanced past two dead_timeouts) set+get on the "
-        "same-shaped call on another client object, made after the first caller filled in the (empty) dict it was handed, still returns a clean miss; the same read call, repeated with no other traffic in between, returns the genuine hit (the items were on the servers all along) and set+get on the same object work. Non-trivial: the fault fired (from the log) and the method is not plain get. Stacks whose servers are put into rotation at run time through add_server in its spellings ((host, port), (host, 'port'), 'host:port', legacy two-argument forms), host names with capitals; with several servers the items of the servers that did not fail may be present. The ElastiCache subclass is a stack like HashClient. Two users at once: two threads / tasks switching at socket calls make the same read on one HashClient(use_pooling=True, ignore_exc=True) while the server's retry is due, while it fails, or after it was given up - neither raises, each returns the miss or the hit. Dialect failures: the server answers a read in a dialect (an unasked item, a cas field, reordered, repeated, blanks, hang-up after an error line) - with ignore_exc the read does not raise and gives the miss or the hit. Reads of very many keys (1001 to 25 000, thorough 70 000) that fail late - the last value undeserialisable, the connection lost near the end of the reply - are a miss as a whole.")
+        "same-shaped call on another client object, made after the first caller filled in the (empty) dict it was handed, still returns a clean miss; the same read call, repeated with no other traffic in between, returns the genuine hit (the items were on the servers all along) and set+get on the same object work. Non-trivial: the fault fired (from the log) and the method is not plain get. Stacks whose servers are put into rotation at run time through add_server in its spellings ((host, port), (host, 'port'), 'host:port', legacy two-argument forms), host names with capitals; with several servers the items of the servers that did not fail may be present. The ElastiCache subclass is a stack like HashClient. Two users at once: two threads / tasks switching at socket calls make the same read on one HashClient(use_pooling=True, ignore_exc=True) while the server's retry is due, while it fails, or after it was given up - neither raises, each returns the miss or the hit. Dialect failures: the server answers a read in a dialect (an unasked item, a cas field, reordered, repeated, blanks, hang-up after an error line) - with ignore_exc the read does not raise and gives the miss or the hit. Reads of very many keys (1001 to 25 000, thorough 70 000) that fail late - the last value undeserialisable, the connection lost near the end of the reply - are a miss as a whole."
+        + ' TLS stacks whose closing handshake (unwrap) fails on a broken connection; outages that change their nature at a chosen read (refused / timeout, then accepted-and-hung-up, garbage lines, SERVER_ERROR busy); a failed node whose name is re-pointed at a replacement while the old address stays dead (failure type moved).')
 MANIFEST = {
     "category": "fault_enumeration",
     "technique": "systematic enumeration of (read method x client stack x argument shape x every fault position/kind of a dry run) with a differential oracle: the failing call's result must be identical (by identity of the default objects) to the same call's miss result, or be the genuine hit",
